@@ -103,14 +103,16 @@ pub mod hc {
     impl<T: Copy + Default> Vec<T> {
         pub fn new() -> Self { Vec { buf: [T::default(); CAP], n: 0 } }
         pub fn push(&mut self, x: T) { self.buf[self.n] = x; self.n += 1; }
-        pub fn len(&self) -> usize { self.n }
-        pub fn iter(&self) -> core::slice::Iter<'_, T> { self.buf[..self.n].iter() }
-        pub fn first(&self) -> Option<&T> { self.buf[..self.n].first() }
-        pub fn last(&self) -> Option<&T> { self.buf[..self.n].last() }
+    }
+    // every slice method (iter, len, windows, first, last, indexing ...) comes from the slice
+    impl<T: Copy + Default> core::ops::Deref for Vec<T> {
+        type Target = [T];
+        fn deref(&self) -> &[T] { &self.buf[..self.n] }
     }
 
     /// the block `let value_ranges = {{ ... }};` cut out of src/parser/mod.rs, unmodified
-    pub fn run_table(values: &Vec<(i64, ())>, min_key: i64) -> Vec<(i64, i64)> {
+    #[allow(unused_variables)]
+    pub fn run_table(values: &Vec<(i64, ())>, min_key: i64, max_key: i64, num_values: usize) -> Vec<(i64, i64)> {
         @BLOCK@
         value_ranges
     }
@@ -135,7 +137,7 @@ pub mod hc {
         }
         let min_key = values.buf[0].0;
         let max_key = values.buf[m - 1].0;
-        let r = run_table(&values, min_key);
+        let r = run_table(&values, min_key, max_key, m);
         assert!(r.n >= 1 && r.n <= m, "number of runs");
         assert!(r.buf[0].0 == min_key, "first run starts at the minimum");
         assert!(r.buf[r.n - 1].1 == max_key, "last run ends at the maximum");
@@ -228,8 +230,73 @@ def engine_c(rep, M, harness_timeout):
         rep.infra_errors.append("cargo kani (Engine C) produced no result file")
         return
     results = K.classify(data, out)
-    D.collect(rep, ids, results, out, crate_dir, harness_timeout, 2, extra_lib=lib, deps="")
     rep.bounds["engine_C"] = {"M": M, "source": "src/parser/mod.rs `let value_ranges = {...};` (text-extracted on every run)"}
+    fails = {hid: r for hid, r in results.items() if r.status == "fail"}
+    oks = {hid: r for hid, r in results.items() if r.status != "fail"}
+    D.collect(rep, {h: v for h, v in ids.items() if h not in fails}, oks, out, crate_dir, harness_timeout, 0, extra_lib=lib, deps="")
+    for hid, r in fails.items():
+        rep.discharged += 1
+        confirm_values(rep, crate_dir, hid, r, harness_timeout)
+
+
+def confirm_values(rep, crate_dir, hid, r, harness_timeout):
+    """Engine C counterexample = a set of discriminants: derive a real enum with exactly these
+    values and let try_from / next / MIN / MAX decide natively"""
+    from . import corpus as C
+    from . import replay as RP
+    prop = rep.prop
+    desc = "; ".join(sorted({c.get("description", "") for c in r.failures}))[:300]
+    entry = {"harness": hid, "kind": "runs_lemma", "status": "fail", "failed_checks": desc}
+    rep.harness_results[hid] = entry
+    tests, pout = RP.concrete_values(crate_dir, hid, harness_timeout, os.path.join(K.WORK, prop, "playback_runs.log"))
+    try:
+        vals = tests[0]
+        m = int.from_bytes(bytes(vals[0]), "little")
+        values = [int.from_bytes(bytes(v), "little", signed=True) for v in vals[1:1 + m]]
+        assert len(values) == m and len(set(values)) == m
+    except Exception as ex:
+        entry["status"] = "unreproduced"
+        entry["reason"] = "cannot decode the discriminants: %s" % ex
+        rep.unreproduced.append(entry)
+        return
+    entry["discriminants"] = values
+    d = C.mk("runs_cex", "i64", values, "C", order="reversed", implicit="none")
+    mod = E.Module(d, C.BUNDLES["TF"], prop)
+    body = []
+    vs = sorted(values)
+    probes = set()
+    for v in vs:
+        for p in (v - 1, v + 1):
+            if C.I64_MIN <= p <= C.I64_MAX and p not in values:
+                probes.add(p)
+    for i, v in enumerate(vs):
+        body.append('match E::try_from(%d) { Some(w) => assert!(w as R == %d), None => assert!(false, "try_from(declared) is None") }' % (v, v))
+    for p in sorted(probes):
+        body.append('assert!(E::try_from(%d).is_none(), "try_from accepts the undeclared value %d");' % (p, p))
+    mod.add(E.Harness("h_confirm", "\n".join(body), 4, "runs_confirm", "-", []))
+    rdir = os.path.join(RP.REPLAYS, prop, "runs_cex")
+    RP.write_replay_crate(rdir, mod.name, mod.text(), mod.name + "::h_confirm", [], repo=REPO)
+    verdicts = {}
+    for prof in ("dev", "release"):
+        rc, out = RP.run_native(rdir, prof)
+        verdicts[prof] = RP.verdict(rc, out)
+    what = "run decomposition wrong for the derivable discriminant set %s (#[repr(i64)]): %s" % (vs, desc)
+    if "reproduced" in verdicts.values():
+        entry["replay"] = rdir
+        pm = D._panic_message(rdir)
+        rep.violations.append(D.Violation(prop, {"kind": "runs", "n": len(values), "check": desc},
+                                          what + (" -- native: " + pm if pm else ""), rdir, {"harness": hid}))
+    else:
+        # a release build may silently produce an invalid value: let miri decide
+        rc, out = RP.run_miri(rdir, release=False)
+        if "Undefined Behavior" in out:
+            entry["replay"] = rdir
+            rep.violations.append(D.Violation(prop, {"kind": "runs", "n": len(values), "check": desc},
+                                              what + " -- miri: undefined behaviour in try_from", rdir, {"harness": hid}))
+            return
+        entry["status"] = "unreproduced"
+        entry["reason"] = "the real derive handles these discriminants correctly (%s): the extracted lemma misrepresents the code" % verdicts
+        rep.unreproduced.append(entry)
 
 
 # ----------------------------------------------------------------------------------
@@ -300,7 +367,7 @@ pub mod c2_@R@ {
             before[j] = ofs;
             {
                 let (b0, e0) = (&b0, &e0);
-                ofs += @INC@;
+                @INC@;
             }
             kani::assume(ofs <= MAXN); // number of variants (documented limit 65534)
             j += 1;
@@ -348,7 +415,10 @@ def extract_c2():
     except OSError:
         return None
     m = re.search(r"quote!\s*\{\s*\(#b1\s*\.\.=\s*#e1\s*,\s*(.+?)\)\s*\}\s*\n\s*\}\s*else", tr, re.S)
-    inc = re.search(r"\bofs\s*\+=\s*([^;]+);", tr)
+    # the statement that advances the running offset, verbatim (whatever its operator)
+    inc = None
+    for mi in re.finditer(r"(?<!let mut )\b(ofs\s*[-+*|^]?=\s*[^;=][^;]*);", tr):
+        inc = mi
     if not m or not inc or m.group(1).strip() == "()":
         return None
     entry = m.group(1).strip().replace("#b1", "b1").replace("#o1", "o1").replace("#e1", "(e0 as R)")
